@@ -83,11 +83,25 @@ class Worker:
                 e[k] = v
         return e
 
+    def _limits(self):
+        # address-space ceiling for non-sanitizer builds (sanitizers reserve terabytes of shadow memory); their
+        # runaway allocations are bounded by the monitors' own heap ceilings / the case watchdog instead
+        cfg = self.job.get("cfg", "")
+        if cfg.startswith("asan") or cfg.startswith("tsan") or cfg.startswith("portable_asan") or self.job.get("prefix"):
+            return None
+
+        def f():
+            import resource
+            lim = int(self.job.get("mem_gb", 6)) << 30
+            resource.setrlimit(resource.RLIMIT_AS, (lim, lim))
+        return f
+
     def run(self, timeout, extra=None):
         t = time.time()
         with open(self.err, "w") as ef:
             try:
-                p = subprocess.run(self.cmd(extra), stdout=ef, stderr=subprocess.STDOUT, env=self.env(), timeout=timeout)
+                p = subprocess.run(self.cmd(extra), stdout=ef, stderr=subprocess.STDOUT, env=self.env(), timeout=timeout,
+                                   preexec_fn=self._limits())
                 self.rc = p.returncode
                 self.timed_out = False
             except subprocess.TimeoutExpired:
@@ -114,13 +128,26 @@ class Worker:
             idx = self.progress()
             if idx == -2 and any(r.get("t") == "stats" for r in recs) and any(r.get("t") == "violation" for r in recs):
                 break   # finished; the non-zero exit status only repeats reports the monitor already turned into violations
-            self.crashes.append((idx, self.rc, self.stderr_text()))
+            self.crashes.append((idx, self.rc, self.stderr_text(), self.reproduce(idx, len(self.crashes))))
             hangs = sum(1 for c in self.crashes if c[1] == 97)
             if idx is None or idx < 0 or attempt == max_restarts or hangs >= 2:
                 self.gave_up = True
                 break
             start = idx + 1
         return self
+
+    def reproduce(self, idx, n):
+        """re-run the crashed case alone with a witness dump; returns (witness, rc, stderr, timed_out, records) or None"""
+        if idx is None or idx < 0:
+            return None
+        w2 = Worker(self.job, self.exe, 0, 1, self.cases, self.seed, self.tier, self.tmp, "%s_only%d" % (self.tag, n))
+        w2.run(420, ["--only", str(idx), "--dump"])
+        witness = ""
+        recs = w2.records()
+        for r in recs:
+            if r.get("t") == "dump":
+                witness = r["witness"]
+        return (witness, w2.rc, w2.stderr_text(), w2.timed_out, recs)
 
     def records(self):
         out = []
@@ -436,24 +463,20 @@ def run_property(prop, tier, seed, replay=None):
                 inconclusive.append("worker %s (%s/%s) exceeded the %ds watchdog twice at case %s" %
                                     (w.tag, w.job["mon"], w.job["cfg"], tmo, w.progress()))
                 continue
-            for ci, (idx, rc, txt) in enumerate(w.crashes):
-                # crashed: reproduce the case alone with a witness dump
+            for ci, (idx, rc, txt, rep) in enumerate(w.crashes):
+                # crashed: the case was re-run alone with a witness dump (Worker.reproduce)
                 tags = classify_crash(txt, rc)
                 witness = ""
-                if idx is not None and idx >= 0:
-                    w2 = Worker(w.job, w.exe, 0, 1, w.cases, w.seed, tier, tmp, "%s_only%d" % (w.tag, ci))
-                    w2.run(tmo, ["--only", str(idx), "--dump"])
-                    for r in w2.records():
-                        if r.get("t") == "dump":
-                            witness = r["witness"]
-                    if w2.rc == 0 and not w2.timed_out:
+                if rep is not None:
+                    witness, rc2, txt2, to2, recs2 = rep
+                    if rc2 == 0 and not to2:
                         tags.append("not_reproduced_alone")
-                        for r in w2.records():
+                        for r in recs2:
                             if r.get("t") == "violation":
                                 report(r["claim"], r.get("tags", []), r.get("witness", ""), r.get("detail", ""))
                     else:
-                        tags = classify_crash(w2.stderr_text(), w2.rc) if not w2.timed_out else tags
-                        txt = w2.stderr_text() or txt
+                        tags = classify_crash(txt2, rc2) if not to2 else tags
+                        txt = txt2 or txt
                 if witness:
                     tags += witness_tags(witness)
                 keep = os.path.join(REPLAY, "%s_%s_crash_s%d_%s_%d.stderr.txt" % (prop, w.job["mon"], seed, w.tag, ci))
